@@ -134,3 +134,113 @@ pub fn crafted_prefix(rng: &mut Prng, deltas: &[u32]) -> Vec<u64> {
 pub const MASK_HI: u64 = 0xffff_ffff_0000_0000;
 pub const MASK_LO: u64 = 0x0000_0000_ffff_ffff;
 pub const MASK_ALL: u64 = u64::MAX;
+
+// ------------------------------------------------------------------------------------------
+// Linear engines (xoshiro / xoroshiro / xorshift): seeds crafted through the engine's own linearity
+// ------------------------------------------------------------------------------------------
+
+/// `oracle(seed bytes) -> state image after some transformation` must be GF(2)-linear in the seed
+/// (true for from_seed followed by steps / jump() / long_jump() of the linear generators; the code
+/// under test itself is the oracle, evaluated on the unit seeds). Returns a non-zero seed for which
+/// the bytes `zero_at .. zero_at + zero_len` of the transformed state are all zero.
+pub fn solve_linear_seed(
+    rng: &mut Prng,
+    seed_len: usize,
+    oracle: &dyn Fn(&[u8]) -> Option<Vec<u8>>,
+    zero_at: usize,
+    zero_len: usize,
+) -> Option<Vec<u8>> {
+    let nvars = seed_len * 8;
+    let words = (nvars + 63) / 64;
+    // column j = image of unit seed j, restricted to the constrained bytes
+    let mut cols: Vec<Vec<u8>> = Vec::with_capacity(nvars);
+    for j in 0..nvars {
+        let mut s = vec![0u8; seed_len];
+        s[j / 8] = 1 << (j % 8);
+        let img = oracle(&s)?;
+        if img.len() < zero_at + zero_len {
+            return None;
+        }
+        cols.push(img[zero_at..zero_at + zero_len].to_vec());
+    }
+    // rows: one equation per constrained bit: XOR_j x_j * cols[j].bit(b) = 0
+    let mut rows: Vec<Vec<u64>> = Vec::new();
+    for b in 0..zero_len * 8 {
+        let mut r = vec![0u64; words];
+        for (j, c) in cols.iter().enumerate() {
+            if (c[b / 8] >> (b % 8)) & 1 == 1 {
+                r[j / 64] |= 1u64 << (j % 64);
+            }
+        }
+        rows.push(r);
+    }
+    // eliminate; collect pivot columns
+    let mut pivots: Vec<usize> = Vec::new();
+    let mut rank = 0;
+    for j in 0..nvars {
+        let bit = |r: &Vec<u64>| (r[j / 64] >> (j % 64)) & 1 == 1;
+        if let Some(p) = (rank..rows.len()).find(|i| bit(&rows[*i])) {
+            rows.swap(rank, p);
+            let pr = rows[rank].clone();
+            for i in 0..rows.len() {
+                if i != rank && bit(&rows[i]) {
+                    for w in 0..words {
+                        rows[i][w] ^= pr[w];
+                    }
+                }
+            }
+            pivots.push(j);
+            rank += 1;
+        }
+    }
+    let is_pivot: Vec<bool> = {
+        let mut v = vec![false; nvars];
+        for p in &pivots {
+            v[*p] = true;
+        }
+        v
+    };
+    for _ in 0..50 {
+        let mut x = vec![0u64; words];
+        for j in 0..nvars {
+            if !is_pivot[j] && rng.chance(1, 2) {
+                x[j / 64] |= 1u64 << (j % 64);
+            }
+        }
+        for (i, p) in pivots.iter().enumerate() {
+            // pivot variable = parity of the free variables in its row
+            let mut par = 0u32;
+            for w in 0..words {
+                let mut m = rows[i][w] & x[w];
+                if *p / 64 == w {
+                    m &= !(1u64 << (*p % 64));
+                }
+                par ^= m.count_ones() & 1;
+            }
+            if par == 1 {
+                x[*p / 64] |= 1u64 << (*p % 64);
+            }
+        }
+        let mut seed = vec![0u8; seed_len];
+        for j in 0..nvars {
+            if (x[j / 64] >> (j % 64)) & 1 == 1 {
+                seed[j / 8] |= 1 << (j % 8);
+            }
+        }
+        if seed.iter().all(|b| *b == 0) {
+            continue;
+        }
+        // verify with the oracle itself (also guards against a non-linear transformation). If the
+        // code under test FAILS on the solved seed (it may panic exactly because the state has a zero
+        // word), the seed is what we are looking for: the run that uses it will show the failure.
+        match oracle(&seed) {
+            Some(img) => {
+                if img[zero_at..zero_at + zero_len].iter().all(|b| *b == 0) && !img.iter().all(|b| *b == 0) {
+                    return Some(seed);
+                }
+            }
+            None => return Some(seed),
+        }
+    }
+    None
+}
